@@ -377,6 +377,10 @@ fn path_rel(root: &Path, path: &Path) -> String {
         .replace('\\', "/")
 }
 
+#[cfg(kani)]
+#[path = "/verif/harness/rip-tools/builtins__shell.rs"]
+mod verif_kani;
+
 #[cfg(test)]
 mod tests {
     use super::*;
